@@ -1,7 +1,8 @@
 // ---- oracle: the signature table of the JMESPath function specification (jmespath.org/specification.html,
-// "Built-in Functions"), transcribed per function.  `Any` = every JSON value; whether an `any` position also
-// admits an expression reference is left open (the specification has no such values); every other
-// position must reject expression references, and `Expref` positions accept nothing else.
+// "Built-in Functions"), transcribed per function.  `Any` = every JSON value.  Two readings of an `any` position are
+// stated as separate clauses: `sig_conforms` (all JSON values accepted; used by the builtin proofs) and `sig_strict`
+// (additionally no expression reference accepted, which is what C06 says); every other position must reject
+// expression references, and `Expref` positions accept nothing else.
 pub enum SpecT { Any, Number, Str, Object, Array, Expref, ArrNum, ArrStr, StrOrArr, ArrNumOrArrStr, StrArrObj }
 pub open spec fn spec_ok(t: SpecT, v: Variable) -> bool {
     match t {
@@ -28,6 +29,16 @@ pub open spec fn sig_conforms(sig: Signature, ss: SpecSig) -> bool {
     &&& sig.inputs@.len() == ss.params.len()
     &&& forall|k: int| 0 <= k < ss.params.len() ==> conforms(#[trigger] sig.inputs@[k], ss.params[k])
     &&& match (sig.variadic, ss.variadic) { (Some(c), Some(s)) => conforms(c, s), (None, None) => true, _ => false }
+}
+/// the same with `any` read strictly (C06: "expression references where values are required ... fails with an
+/// invalid-type error"): an `any` position accepts every JSON value and no expression reference
+pub open spec fn conforms_strict(code: ArgumentType, st: SpecT) -> bool {
+    forall|v: Variable| #![trigger type_ok(code, v)] type_ok(code, v) == spec_ok(st, v)
+}
+pub open spec fn sig_strict(sig: Signature, ss: SpecSig) -> bool {
+    &&& sig.inputs@.len() == ss.params.len()
+    &&& forall|k: int| 0 <= k < ss.params.len() ==> conforms_strict(#[trigger] sig.inputs@[k], ss.params[k])
+    &&& match (sig.variadic, ss.variadic) { (Some(c), Some(s)) => conforms_strict(c, s), (None, None) => true, _ => false }
 }
 pub enum Builtin { Abs, Avg, Ceil, Contains, EndsWith, Floor, Join, Keys, Length, Map, Max, Min, MaxBy, MinBy, Merge, NotNull, Reverse, Sort, SortBy, StartsWith, Sum, ToArray, ToNumber, ToString, Type, Values }
 pub open spec fn spec_sig(b: Builtin) -> SpecSig {
